@@ -20,6 +20,8 @@ MON_HTTP_INFO = {"Mon_HTTP_Info"}          # /info returns the named chain's inf
 DRIFT = {"Conformance", "Harness"}
 PKG = "./handler/http"
 WALK_LEN = 16
+SCHEMES = ["pedersen-bls-chained", "pedersen-bls-unchained", "bls-unchained-on-g1", "bls-unchained-g1-rfc9380",
+           "bls-bn254-unchained-on-g1"]
 
 _EDGE = re.compile(r'^(-?\d+) -> (-?\d+) \[label="(\w+)(?:\(([^)]*)\))?"')
 _NODE = re.compile(r'^(-?\d+) \[label="(.*)"(,style = filled)?\]\s*$')
@@ -137,6 +139,9 @@ def run(ctx, monitors=MON_C01_HTTP):
             rp_script = j["script"]
         elif j.get("stage") == "httprelay":
             raise core.Inconclusive("replay file %s holds no script" % rp)
+        else:
+            ctx.notes.append("HttpRelay: replay file %s belongs to another stage; stage skipped" % rp)
+            return True
 
     if rp_script:
         scripts = [rp_script]
@@ -194,6 +199,8 @@ def run(ctx, monitors=MON_C01_HTTP):
         scripts.append({"name": "idle-reconnect", "cur": 1000, "mode": "alldue",
                         "steps": [{"a": a, "args": g} for a, g in idle]})
 
+    for i, sc in enumerate(scripts):
+        sc.setdefault("scheme", SCHEMES[i % len(SCHEMES)])   # the handler is scheme-agnostic; the oracle is not
     inp = os.path.join(ctx.work, "httprelay-scripts.ndjson")
     write_scripts(inp, scripts)
     env = {"VERIF_IN": inp}
